@@ -694,8 +694,9 @@ let handle (line : string) : string =
        Buffer.add_string b " NOMM "; Buffer.add_string b (bool01 (List.for_all nommb m.m_avps))
    | "UTF8" ->
        let bs = next_bytes t in Buffer.add_string b (bool01 (utf8_valid bs))
-   | "LEAFDEC" | "LEAFDECD" | "LEAFDECI" ->
-       (* LEAFDEC <ty> <vl> <octets> *)
+   | ("LEAFDEC" | "LEAFDECD" | "LEAFDECI" | "LEAFAFTER") as lcmd ->
+       (* LEAFDEC <ty> <vl> <octets>; LEAFAFTER <dict> <frame> ...: a message was decoded on the same thread before - a value is what its octets say *)
+       if lcmd = "LEAFAFTER" then (ignore (next t); ignore (next t));
        let ty = ty_of_tok (next t) in let vl = next_n t in let bs = next_bytes t in
        (match dec_leaf ty vl bs with
         | Some (l, rest) -> Buffer.add_string b "OK L "; pr_leaf b l; Buffer.add_char b ' ';
